@@ -1,3 +1,304 @@
-(* C20 - placeholder until the proofs land *)
-From UV Require Import Lib.Base Model.Thread.
-Example C20_stub : uv_trylock_code 16 = Some (-16)%Z. Proof. reflexivity. Qed.
+(* C20 - Threads and synchronisation primitives.  Only statements, each closed by a lemma
+   proved in Proofs/ThreadProofs*.v, with Print Assumptions beneath.
+   PARTIAL: what is proved is the logic libuv adds on top of pthread (code maps, stack-size
+   arithmetic, deadline arithmetic, the fallback barrier and the custom semaphore as
+   algorithms over a mutex and a condition variable).  The behaviour of the pthread objects
+   themselves (mutual exclusion, wake-up, the meaning of ETIMEDOUT) enters as explicit
+   hypotheses of the theorems below - the "posix_..." premises. *)
+From UV Require Import Lib.Base Model.Thread Proofs.ThreadProofs Proofs.ThreadProofsBarrier
+  Proofs.ThreadProofsSem.
+
+Local Open Scope Z_scope.
+
+(* ------------------------------------------------------------------ *)
+(* (a)+(d) code maps and wrapper contracts                             *)
+
+(* Exact code maps: 0 -> 0, EBUSY|EAGAIN -> UV_EBUSY, anything else aborts (None);
+   PTHREAD_BARRIER_SERIAL_THREAD -> 1; ETIMEDOUT -> UV_ETIMEDOUT. *)
+Theorem C20_code_maps_exact :
+  (forall err, uv_trylock_code err =
+     if err =? 0 then Some 0
+     else if (err =? EBUSY) || (err =? EAGAIN) then Some UV_EBUSY else None) /\
+  (forall rc, uv_barrier_wait_code rc =
+     if rc =? 0 then Some 0 else if rc =? PTHREAD_BARRIER_SERIAL_THREAD then Some 1 else None) /\
+  (forall r, uv_cond_timedwait_code r =
+     if r =? 0 then Some 0 else if r =? ETIMEDOUT then Some UV_ETIMEDOUT else None).
+Proof.
+  exact (conj trylock_code_exact (conj barrier_wait_code_exact timedwait_code_exact)).
+Qed.
+Print Assumptions C20_code_maps_exact.
+
+(* Given the POSIX contract of pthread_mutex_trylock on a non-recursive mutex,
+   uv_mutex_trylock returns UV_EBUSY exactly when the mutex is held (and leaves it
+   alone), otherwise 0 with the mutex now held; it never aborts. *)
+Theorem C20_trylock_ebusy_iff_held :
+  forall (St : Type) (held : St -> bool) (pthread_mutex_trylock : St -> Z * St),
+  (forall s, if held s then pthread_mutex_trylock s = (EBUSY, s)
+             else fst (pthread_mutex_trylock s) = 0 /\ held (snd (pthread_mutex_trylock s)) = true) ->
+  forall s,
+  let r := uv_mutex_trylock St pthread_mutex_trylock s in
+  (fst r = Some UV_EBUSY <-> held s = true) /\
+  (held s = true -> snd r = s) /\
+  (held s = false -> fst r = Some 0 /\ held (snd r) = true) /\
+  fst r <> None.
+Proof. intros St held tr H s. exact (trylock_ebusy_iff_held St held tr H s). Qed.
+Print Assumptions C20_trylock_ebusy_iff_held.
+
+(* Recursive mutexes nest: the owner's trylock succeeds one level deeper, anybody else
+   gets UV_EBUSY and the mutex is untouched. *)
+Theorem C20_trylock_recursive_nests :
+  forall (St : Type) (owner : St -> option nat) (depth : St -> nat) (me : nat)
+         (pthread_mutex_trylock : St -> Z * St),
+  (forall s,
+    match owner s with
+    | None => fst (pthread_mutex_trylock s) = 0 /\ owner (snd (pthread_mutex_trylock s)) = Some me
+              /\ depth (snd (pthread_mutex_trylock s)) = 1%nat
+    | Some o =>
+        if Nat.eqb o me
+        then (fst (pthread_mutex_trylock s) = 0 /\ owner (snd (pthread_mutex_trylock s)) = Some me
+              /\ depth (snd (pthread_mutex_trylock s)) = S (depth s))
+             \/ pthread_mutex_trylock s = (EAGAIN, s)
+        else pthread_mutex_trylock s = (EBUSY, s)
+    end) ->
+  forall s,
+  let r := uv_mutex_trylock St pthread_mutex_trylock s in
+  fst r <> None /\
+  (fst r = Some 0 -> owner (snd r) = Some me /\ (owner s = Some me -> depth (snd r) = S (depth s))) /\
+  ((exists o, owner s = Some o /\ o <> me) -> fst r = Some UV_EBUSY /\ snd r = s).
+Proof. intros St ow d me tr H s. exact (trylock_recursive_nests St ow d me tr H s). Qed.
+Print Assumptions C20_trylock_recursive_nests.
+
+(* rwlock: a write lock is refused (UV_EBUSY) exactly when anybody holds the lock;
+   a read lock is never granted while a writer holds it. *)
+Theorem C20_rwlock_trywr_ebusy_iff_held :
+  forall (St : Type) (readers : St -> nat) (writer : St -> bool) (trywr : St -> Z * St),
+  (forall s, if writer s || negb (Nat.eqb (readers s) 0) then trywr s = (EBUSY, s)
+             else fst (trywr s) = 0 /\ writer (snd (trywr s)) = true /\ readers (snd (trywr s)) = O) ->
+  forall s,
+  let r := uv_rwlock_trywrlock St trywr s in
+  (fst r = Some UV_EBUSY <-> (writer s = true \/ readers s <> O)) /\
+  (fst r = Some 0 <-> (writer s = false /\ readers s = O)) /\
+  (fst r = Some 0 -> writer (snd r) = true) /\
+  fst r <> None.
+Proof. intros St rd wr tw H s. exact (rwlock_trywr_ebusy_iff_held St rd wr tw H s). Qed.
+Print Assumptions C20_rwlock_trywr_ebusy_iff_held.
+
+Theorem C20_rwlock_tryrd_excludes_writer :
+  forall (St : Type) (readers : St -> nat) (writer : St -> bool) (tryrd : St -> Z * St),
+  (forall s, if writer s then tryrd s = (EBUSY, s)
+             else (fst (tryrd s) = 0 /\ readers (snd (tryrd s)) = S (readers s) /\
+                   writer (snd (tryrd s)) = false) \/ tryrd s = (EAGAIN, s)) ->
+  forall s,
+  let r := uv_rwlock_tryrdlock St tryrd s in
+  (writer s = true -> fst r = Some UV_EBUSY /\ snd r = s) /\
+  (fst r = Some 0 -> writer s = false /\ readers (snd r) = S (readers s)) /\
+  (fst r = Some UV_EBUSY -> snd r = s) /\
+  fst r <> None.
+Proof. intros St rd wr tr H s. exact (rwlock_tryrd_excludes_writer St rd wr tr H s). Qed.
+Print Assumptions C20_rwlock_tryrd_excludes_writer.
+
+(* uv_sem_trywait (native semaphore): after any number of EINTR answers, UV_EAGAIN exactly
+   at value zero, else 0; exactly the answers up to the decisive one are consumed. *)
+Theorem C20_trywait_eagain_at_zero :
+  forall (k : nat) (v e : Z) (rest : list (Z * Z)), 0 <= v ->
+  uv_sem_trywait_code (repeat eintr_answer k ++ posix_sem_trywait_answer v e :: rest) =
+    (Some (if v =? 0 then UV_EAGAIN else 0), rest).
+Proof. exact trywait_eagain_at_zero. Qed.
+Print Assumptions C20_trywait_eagain_at_zero.
+
+(* passes <= initial value + posts behind the native wrappers, any operation sequence;
+   UV_EAGAIN is never returned at a positive value *)
+Theorem C20_sem_bound :
+  forall (init : Z) (ops : list nsop), 0 <= init ->
+  let s := fold_left nsem_step ops (mkNS init 0 0 false) in
+  ns_passes s + ns_value s = init + ns_posts s /\ 0 <= ns_value s /\
+  ns_passes s <= init + ns_posts s /\ ns_eagain_at_pos s = false.
+Proof. exact sem_bound. Qed.
+Print Assumptions C20_sem_bound.
+
+(* uv_cond_init: 0 exactly when all four pthread calls succeed; attribute destroyed on
+   every path that initialised it, condition variable destroyed when the last step fails *)
+Theorem C20_cond_init_exits :
+  forall e1 e2 e3 e4,
+  let '(r, calls) := uv_cond_init_model e1 e2 e3 e4 in
+  (r = 0 <-> e1 = 0 /\ e2 = 0 /\ e3 = 0 /\ e4 = 0) /\
+  (e1 = 0 -> In 4 calls) /\
+  (e1 = 0 -> e2 = 0 -> e3 = 0 -> e4 <> 0 -> In 5 calls).
+Proof. exact cond_init_spec. Qed.
+Print Assumptions C20_cond_init_exits.
+
+(* ------------------------------------------------------------------ *)
+(* (b) stack size                                                      *)
+
+(* For a page size 2^k and 0 < s <= 2^64 - page: the size handed to
+   pthread_attr_setstacksize is >= s, >= the minimum, page-aligned (or the minimum itself,
+   which is page-aligned whenever min_ok), and less than a page above s unless the minimum
+   applies. *)
+Theorem C20_stack_at_least_requested :
+  forall page k psm rl s,
+  page = 2 ^ k -> 0 <= k -> 0 < s <= two64 - page ->
+  let r := stack_size_applied page psm rl true s in
+  s <= r /\ min_stack_size psm <= r /\
+  (r mod page = 0 \/ r = min_stack_size psm) /\
+  (min_ok page psm -> r mod page = 0) /\
+  (r < s + page \/ r = min_stack_size psm).
+Proof. exact stack_at_least_requested. Qed.
+Print Assumptions C20_stack_at_least_requested.
+
+(* s = 0 (or no UV_THREAD_HAS_STACK_SIZE) gives the default of uv__thread_stack_size, which
+   is the glibc default or the soft RLIMIT_STACK rounded down to a page, then >= minimum *)
+Theorem C20_stack_zero_gives_default :
+  forall page psm rl flag s, (flag = false \/ s = 0) ->
+  stack_size_applied page psm rl flag s = thread_stack_size page psm rl.
+Proof. exact stack_zero_gives_default. Qed.
+Print Assumptions C20_stack_zero_gives_default.
+
+Theorem C20_thread_stack_size_spec :
+  forall page psm rl, 0 < page ->
+  let r := thread_stack_size page psm rl in
+  r = default_stack_size \/
+  (exists cur, rl = RlCur cur /\ cur <> RLIM_INFINITY /\ r = cur - cur mod page /\
+               r mod page = 0 /\ min_stack_size psm <= r /\ (0 <= cur -> r <= cur)).
+Proof. exact thread_stack_size_spec. Qed.
+Print Assumptions C20_thread_stack_size_spec.
+
+(* observation (DESIGN item 16): within a page of 2^64 the rounding wraps and the thread
+   gets less than it asked for.  Full clause: forall 0 < s < 2^64, stack_ok .. s. *)
+Theorem C20_stack_wrap_refuted :
+  exists s, 0 < s < two64 /\ ~ stack_ok 4096 16384 (RlCur 8388608) s.
+Proof. exact stack_wrap_refuted. Qed.
+Print Assumptions C20_stack_wrap_refuted.
+
+Theorem C20_stack_wrap_all :
+  forall page k psm rl s,
+  page = 2 ^ k -> 0 <= k -> 0 < psm < two64 - page -> page < two64 - 8192 ->
+  two64 - page < s < two64 -> ~ stack_ok page psm rl s.
+Proof. exact stack_wrap_all. Qed.
+Print Assumptions C20_stack_wrap_all.
+
+(* ------------------------------------------------------------------ *)
+(* (c) uv_cond_timedwait                                               *)
+
+(* Full clause ("UV_ETIMEDOUT only after at least the timeout has elapsed on uv_hrtime()"):
+   for every condition variable honouring POSIX ("ETIMEDOUT only when abstime has passed"),
+   every timeout and every clock reading hr at the call,
+       result = UV_ETIMEDOUT -> hr + timeout <= clock at return. *)
+Definition C20_timedwait_not_early : Prop :=
+  forall (wait now_ret : Z * Z -> Z),
+    (forall ts, wait ts = ETIMEDOUT -> ts_ns ts <= now_ret ts) ->
+    forall timeout hr, 0 <= timeout < two64 -> 0 <= hr < two64 ->
+    let '(res, ts) := uv_cond_timedwait_model add_wrap timeout hr wait in
+    res = Some UV_ETIMEDOUT -> hr + timeout <= now_ret ts.
+
+(* refuted on the current code (DESIGN item 6): timeout = UINT64_MAX at hr = 5 s + 7 ns *)
+Theorem C20_timedwait_wraps_refuted : ~ C20_timedwait_not_early.
+Proof. exact timedwait_wraps_refuted. Qed.
+Print Assumptions C20_timedwait_wraps_refuted.
+
+(* what does hold: the clause for every call whose deadline does not wrap *)
+Theorem C20_timedwait_not_early_partial :
+  forall (wait now_ret : Z * Z -> Z),
+    (forall ts, wait ts = ETIMEDOUT -> ts_ns ts <= now_ret ts) ->
+    forall timeout hr, 0 <= timeout -> 0 <= hr -> timeout + hr < two64 ->
+    let '(res, ts) := uv_cond_timedwait_model add_wrap timeout hr wait in
+    res = Some UV_ETIMEDOUT -> hr + timeout <= now_ret ts.
+Proof. intros w n H t h. exact (timedwait_not_early_partial w n H t h). Qed.
+Print Assumptions C20_timedwait_not_early_partial.
+
+(* every wrapping call hands pthread a deadline that is already in the past *)
+Theorem C20_timedwait_wrap_deadline_in_past :
+  forall timeout hr, 0 <= timeout < two64 -> 0 <= hr < two64 -> two64 <= timeout + hr ->
+  ts_ns (timedwait_deadline timeout hr) < hr.
+Proof. exact timedwait_wrap_deadline_in_past. Qed.
+Print Assumptions C20_timedwait_wrap_deadline_in_past.
+
+(* the repaired variant (notes/C20_fix_timedwait.diff: saturating add): the full clause,
+   for every timeout, as long as the clock is below 2^64-1 ns when the wait returns *)
+Theorem C20_timedwait_fixed_not_early :
+  forall (wait now_ret : Z * Z -> Z),
+    (forall ts, wait ts = ETIMEDOUT -> ts_ns ts <= now_ret ts) ->
+    forall timeout hr, 0 <= timeout -> 0 <= hr ->
+    (forall ts, now_ret ts < max64) ->
+    let '(res, ts) := uv_cond_timedwait_model add_sat timeout hr wait in
+    res = Some UV_ETIMEDOUT -> hr + timeout <= now_ret ts.
+Proof. intros w n H t h. exact (timedwait_fixed_not_early w n H t h). Qed.
+Print Assumptions C20_timedwait_fixed_not_early.
+
+(* the timespec is well formed: tv_sec fits time_t, 0 <= tv_nsec < 10^9 *)
+Theorem C20_timedwait_timespec_valid :
+  forall timeout hr,
+  let ts := timedwait_deadline timeout hr in
+  0 <= fst ts < 2 ^ 63 /\ 0 <= snd ts < NANOSEC /\ ts_ns ts = add_wrap timeout hr.
+Proof.
+  intros timeout hr. exact (timedwait_timespec_valid add_wrap timeout hr (add_wrap_range timeout hr)).
+Qed.
+Print Assumptions C20_timedwait_timespec_valid.
+
+(* ------------------------------------------------------------------ *)
+(* (e) the algorithms libuv implements itself, over ALL schedules      *)
+
+(* Fallback barrier: for every count, any number of threads making any number of calls
+   each, and every schedule (including spurious wake-ups), after every step:
+   (1) returns <= count * floor(calls / count): no thread leaves before the count-th
+       thread of its round arrived; (2) among the first k returns exactly floor(k/count) are
+       non-zero: one per round; (3) exits <= count * floor(joins / count), and while a round
+       is being joined every earlier round has completely passed the exit (in<>0 -> out=0):
+       rounds do not mix. *)
+Theorem C20_barrier_fallback_correct :
+  forall (thr : Z) (rems : list nat) (sched : list choice),
+  0 < thr < two32 ->
+  let s := brun (binit thr rems) sched in
+  let tr := b_trace s in
+  (rets tr <= thr * (calls tr / thr) /\
+   nzrets tr = rets tr / thr /\
+   leaves tr <= thr * (joins tr / thr) /\
+   (joins tr mod thr <> 0 -> leaves tr = thr * (joins tr / thr)) /\
+   joins tr <= calls tr /\ rets tr <= leaves tr) /\
+  (b_in s <> 0 -> b_out s = 0).
+Proof. exact barrier_fallback_correct. Qed.
+Print Assumptions C20_barrier_fallback_correct.
+
+Theorem C20_barrier_mutex_exclusive :
+  forall thr rems sched, 0 < thr < two32 ->
+  cnt holds (b_ths (brun (binit thr rems) sched)) <= 1.
+Proof. exact barrier_mutex_exclusive. Qed.
+Print Assumptions C20_barrier_mutex_exclusive.
+
+Example C20_barrier_example :
+  let s := brun (binit 3 [2; 2; 2]%nat) (rr 3 20) in
+  bverdict s = 0 /\ calls (b_trace s) = 6 /\ rets (b_trace s) = 6 /\ nzrets (b_trace s) = 2.
+Proof. exact barrier_example. Qed.
+
+(* Custom semaphore: for every initial value, every program (post/wait/trywait sequences)
+   of every thread and every schedule, after every step: completed passes <= decrements
+   <= initial value + increments, and the counter never underflows. *)
+Theorem C20_custom_sem_safe :
+  forall (value : Z) (progs : list (list semop)) (sched : list choice),
+  0 <= value < two32 ->
+  let s := srun (sinit value progs) sched in
+  passes (s_trace s) <= decs (s_trace s) /\
+  decs (s_trace s) + s_value s <= value + incs (s_trace s) /\
+  passes (s_trace s) <= value + incs (s_trace s) /\
+  0 <= s_value s.
+Proof. exact custom_sem_safe. Qed.
+Print Assumptions C20_custom_sem_safe.
+
+(* observation outside the property text (liveness): a lost wake-up is reachable *)
+Theorem C20_custom_sem_lost_wakeup :
+  let s := srun (sinit 0 [[SWait]; [SWait]; [SPost; SPost]]) lost_wakeup_sched in
+  sverdict s = 2 /\ s_value s = 1 /\
+  (exists th, nth_error (s_ths s) 1 = Some th /\ st_pc th = SWw false).
+Proof. exact custom_sem_lost_wakeup. Qed.
+Print Assumptions C20_custom_sem_lost_wakeup.
+
+Example C20_custom_sem_example :
+  let s := srun (sinit 1 [[SWait; SWait]; [STry; SPost]])
+                (map (fun t => mkChoice t 0) [0; 1; 0; 0; 0; 1; 1; 1; 0; 0; 1]%nat) in
+  sverdict s = 0 /\ passes (s_trace s) = 2 /\ incs (s_trace s) = 1.
+Proof. exact custom_sem_example. Qed.
+
+Example C20_stack_timedwait_examples :
+  stack_size_applied 4096 16384 (RlCur 8388608) true 1048577 = 1052672 /\
+  timedwait_deadline 1000 (hrtime_of 5 7) = (5, 1007) /\
+  timedwait_deadline max64 (hrtime_of 5 7) = (5, 6).
+Proof. vm_compute. auto. Qed.
